@@ -196,6 +196,10 @@ def run(scn, fork_call):
         return fork_call(execute, scn)
     except HarnessError as e:
         deep = any(isinstance(i, dict) and list(i) == ["$deep"] for i in scn["world"]["instances"])
+        if deep and "timed out" in str(e):
+            # a branching recursive schema over a deep instance is exponential: the run is inconclusive, not broken
+            return {"violations": [], "nontrivial": False, "stats": {"deep_instance_run_too_long": 1},
+                    "steps": 0, "log_digest": digest(["too-long"]), "states": [], "sched": None}
         if deep and "status 6" in str(e):
             # "Fatal Python error: Cannot recover from stack overflow": the interpreter itself gave up while a
             # RecursionError was being handled (it aborts when handlers recurse 50 frames further).  That is the
